@@ -186,3 +186,42 @@ Section Loops.
       exists l'. split; [exact Hp'|]. intros y Hy. apply N.eqb_neq. intros <-. apply Hnh, Hset, Hy.
   Qed.
 End Loops.
+
+(* ------------------------------------------------------------------ loop nesting *)
+Lemma ememb_in e l : ememb e l = true <-> In e l.
+Proof.
+  unfold ememb. rewrite existsb_exists. destruct e as [a b]. split.
+  - intros [[c d] [Hin Hq]]. cbn [fst snd] in Hq. apply andb_true_iff in Hq. destruct Hq as [H1 H2].
+    apply N.eqb_eq in H1, H2. subst. exact Hin.
+  - intros Hin. exists (a, b). split; auto. cbn [fst snd]. rewrite !N.eqb_refl. reflexivity.
+Qed.
+
+(* [V] the accepted edge set of the loop "tree" is exactly the nesting relation between the natural loops:
+   an edge outer -> inner iff the headers differ and the loop of inner is contained in the loop of outer *)
+Theorem looptree_ok_sound vs es r ls tv te :
+  tab_ok vs es r = true -> loops_ok (mk_tab vs es r) es ls = true -> looptree_ok ls tv te = true ->
+  forall outer inner, In (outer, inner) te <-> loop_nested es r outer inner.
+Proof.
+  intros Hok Hls Hlt outer inner.
+  destruct (loops_ok_sound vs es r Hok ls Hls) as [Hhd Hbody].
+  unfold looptree_ok in Hlt. rewrite !andb_true_iff in Hlt. destruct Hlt as [[_ Hrel] Hends].
+  rewrite forallb_forall in Hrel, Hends.
+  assert (Hkey : forall h, is_header es r h -> exists L, In (h, L) ls).
+  { intros h Hh. apply Hhd in Hh. apply in_map_iff in Hh. destruct Hh as [[h' L] [Heq Hin]]. cbn in Heq. subst. eauto. }
+  unfold loop_nested. split.
+  - intros Hin.
+    specialize (Hends _ Hin). cbn [fst snd] in Hends. apply andb_true_iff in Hends. destruct Hends as [Ho Hi].
+    apply memb_in in Ho, Hi. apply Hhd in Ho as Hho. apply Hhd in Hi as Hhi.
+    destruct (Hkey _ Hho) as [Lo Hlo]. destruct (Hkey _ Hhi) as [Li Hli].
+    specialize (Hrel _ Hlo). rewrite forallb_forall in Hrel. specialize (Hrel _ Hli). cbn [fst snd] in Hrel.
+    apply eqb_prop in Hrel. rewrite (proj2 (ememb_in _ _) Hin) in Hrel. symmetry in Hrel.
+    apply andb_true_iff in Hrel. destruct Hrel as [Hne Hsub].
+    apply negb_true_iff, N.eqb_neq in Hne. split; [exact Hne|]. split; [exact Hho|]. split; [exact Hhi|].
+    intros x Hx. apply (Hbody _ _ Hlo). apply (proj1 (subset_b_spec _ _) Hsub). apply (Hbody _ _ Hli). exact Hx.
+  - intros [Hne [Hho [Hhi Hsub]]].
+    destruct (Hkey _ Hho) as [Lo Hlo]. destruct (Hkey _ Hhi) as [Li Hli].
+    specialize (Hrel _ Hlo). rewrite forallb_forall in Hrel. specialize (Hrel _ Hli). cbn [fst snd] in Hrel.
+    apply eqb_prop in Hrel. apply ememb_in. rewrite Hrel. apply andb_true_iff. split.
+    + apply negb_true_iff, N.eqb_neq. exact Hne.
+    + apply subset_b_spec. intros x Hx. apply (Hbody _ _ Hlo). apply Hsub. apply (Hbody _ _ Hli). exact Hx.
+Qed.
